@@ -13,6 +13,15 @@ from .cymodel import X, pp
 from .report import AnalysisError
 
 
+def strip_qual(t: str) -> str:
+    """C type without cv-qualifiers (`const float *` -> `float *`): the
+    qualifiers do not change sizes, widths or what an access touches."""
+    words = [w for w in t.replace("*", " * ").split()
+             if w not in ("const", "volatile", "restrict", "__restrict")]
+    out = " ".join(words)
+    return out.replace(" * *", " **").replace("* *", "**")
+
+
 @dataclass
 class CFunc:
     name: str
@@ -52,8 +61,8 @@ class _Conv:
         if k in ("ImplicitCastExpr", "ParenExpr", "ConstantExpr"):
             return self.expr(ks[0])
         if k == "CStyleCastExpr":
-            return X("cast", n.get("type", {}).get("qualType", "?"), self.expr(ks[0]),
-                     line=ln)
+            return X("cast", strip_qual(n.get("type", {}).get("qualType", "?")),
+                     self.expr(ks[0]), line=ln)
         if k == "DeclRefExpr":
             return X("name", n["referencedDecl"]["name"], line=ln)
         if k == "IntegerLiteral":
@@ -133,7 +142,8 @@ class _Conv:
                 ik = self.kids(d)
                 if ik:
                     init = self.expr(ik[0])
-                decls.append((d["name"], d.get("type", {}).get("qualType", "?"), init))
+                decls.append((d["name"], strip_qual(d.get("type", {}).get("qualType", "?")),
+                              init))
             return X("cdecl", decls, line=ln)
         if k == "ForStmt":
             raw = n.get("inner", [])
@@ -194,7 +204,7 @@ def load_c(repo: str, relpath: str) -> dict:
         f = loc.get("file")
         if f and os.path.abspath(f) != os.path.abspath(path):
             conv._cur_file = f
-        params = [(c["name"], c["type"]["qualType"]) for c in n["inner"]
+        params = [(c["name"], strip_qual(c["type"]["qualType"])) for c in n["inner"]
                   if c.get("kind") == "ParmVarDecl"]
         if n.get("storageClass") == "extern" and not body:
             continue
